@@ -113,6 +113,13 @@ def make_image_obj(case):
         kw = dict(width=size[1], height=size[2])
     if forced:
         cls.forced_support = True
+    elif case.get("subfirst") and case["style"] != "block":
+        # the first object of the process is an instance of a USER SUBCLASS of the style: the
+        # terminal detection it triggers must serve the library class exactly as its own would
+        stubs.set_identity(case["ident"], probe=False)
+        user_cls = type("User" + cls.__name__, (cls,), {})
+        first = user_cls(Image.new("RGB", (3, 3)))
+        first.close()
     try:
         if kind == "pil":
             image = cls(src, **kw)
